@@ -17,7 +17,33 @@ def run(tier, seed):
         runs += [dict(W=1, pp=1, execs=10, ops=40, perturb=2), dict(W=2, pp=1, execs=8, ops=40, perturb=3),
                  dict(W=0, pp=0, execs=8, ops=40, perturb=2, nt=4)]
     drive(v, PROP, seed, runs, tier)
+    handoff_edges(v, seed, tier)
     return v.finish()
+
+def handoff_edges(v, seed, tier):
+    """The other hand-off edges C05 lists (dispatch_once, dispatch_semaphore, dispatch_group): their drivers carry
+    'returned before completion' / payload-visibility oracles; the protocols themselves are decided by C09 / C08 / C07
+    (Once.tla, Semaphore.tla, Group.tla with trace validation).  Here an oracle failure, crash or hang on one of
+    these edges is a C05 violation."""
+    import os
+    edges = [("drv_once", lambda tr, s: [tr, str(s), "2", "30"], "dispatch_once"),
+             ("drv_semaphore", lambda tr, s: [tr, str(s), "2", "15", "12"], "dispatch_semaphore"),
+             ("drv_group", lambda tr, s: [tr, str(s), "2", "12", "14", "0"], "dispatch_group")]
+    for name, args, what in edges:
+        if not os.path.exists(os.path.join(ROOT, "harness", name + ".c")):
+            continue
+        drv = build_driver(name)
+        for i in range(2 if tier == "quick" else 8):
+            tr = os.path.join(rundir(PROP), "%s_%d.ndjson" % (name, i))
+            rc, out, err = sh([drv] + args(tr, seed * 700 + i), timeout=300)
+            if rc in (2, 70, 71):
+                msg = {2: "hand-off oracle failed", 70: "crash", 71: "hang"}[rc]
+                v.violation("%s edge: %s: %s" % (what, msg, (err.strip() or out.strip())[-300:]),
+                            save_replay(PROP, "%s_fail_%d.ndjson" % (name, i), src=tr) if os.path.exists(tr) else tr)
+            elif rc != 0:
+                raise Broken("%s failed rc=%d: %s" % (name, rc, err[-500:]))
+            else:
+                v.traces += 1
 
 def replay(path, seed):
     return replay_lane(PROP, path)
